@@ -17,7 +17,7 @@ Proof.
   induction es as [|e es IH]; intros syms prec act syms' prec' act' H; cbn [scan_rhs] in H.
   - inversion H; subst. split; reflexivity.
   - destruct e as [n|c].
-    + destruct (tab_has tab n); [|discriminate]. apply IH in H. cbn [rsyms last_level last_action fold_left]. exact H.
+    + destruct (tab_usable tab n); [|discriminate]. apply IH in H. cbn [rsyms last_level last_action fold_left]. exact H.
     + apply IH in H. cbn [rsyms last_action fold_left]. exact H.
 Qed.
 
